@@ -62,6 +62,7 @@ def run(ctx):
                     ctx.dist["prefixes=False"] += 1
                     one(ctx, client_np, I, op, args, "object", meta, env, [], [])
     defaults_and_untyped(ctx)
+    special_floats(ctx)
     answers = ctx.driver.ask(reqs)
     for ans, (meta, actual, spec) in zip(answers, metas):
         model = [SM.canon_info(x) for x in ans] if isinstance(ans, list) else ans
@@ -347,6 +348,45 @@ def defaults_and_untyped(ctx):
                 if bits is not None and not (-2 ** bits <= int(text) < 2 ** bits):
                     ctx.fail("the text of an untyped leaf is not a valid lexical form of the xsi:type given to it",
                              meta, [n["name"][1], t, text], "a type whose value space holds the number")
+
+
+def special_floats(ctx):
+    """xsd:float / xsd:double elements, list items and attributes given the IEEE specials and extremes: the text is
+    the XSD lexical form (INF, -INF, NaN; a decimal or scientific numeral that reads back equal)."""
+    schema = ('<xsd:element name="f"><xsd:complexType><xsd:sequence><xsd:element name="d" type="xsd:double"/>'
+              '<xsd:element name="s" type="xsd:float" minOccurs="0"/><xsd:element name="l" type="xsd:double" '
+              'minOccurs="0" maxOccurs="unbounded"/></xsd:sequence><xsd:attribute name="ad" type="xsd:double"/>'
+              '<xsd:attribute name="af" type="xsd:float"/></xsd:complexType></xsd:element>')
+    client = wsdlkit.client(wsdlkit.wsdl_doc(schema, "f", None), nosend=True, unwrap=False)
+    vals = [float("inf"), float("-inf"), float("nan"), 0.0, -0.0, 1e308, 5e-324, 1.5, -2.25e-7]
+
+    def lex_ok(text, v):
+        if text is None:
+            return False
+        if v != v:
+            return text == "NaN"
+        if v in (float("inf"), float("-inf")):
+            return text == ("INF" if v > 0 else "-INF")
+        try:
+            return all(ch in "0123456789+-.eE" for ch in text) and float(text) == v
+        except ValueError:
+            return False
+    for v in vals:
+        meta = {"stream": "special-floats", "value": repr(v)}
+        ctx.case(common.canon(meta), True)
+        try:
+            env = wsdlkit.envelope_bytes(client.service.f({"d": v, "s": v, "l": [v, 1.0, v], "_ad": v, "_af": v}))
+            froot = xmlread.find1(xmlread.find1(xmlread.parse(env), "Body"), "f")
+        except Exception as e:
+            ctx.fail("request construction failed", meta, repr(e), "a request")
+            continue
+        texts = [[c["name"][1], c.get("text")] for c in froot["children"]] + \
+                [["@" + k[1], t] for k, t in sorted(froot["attrs"].items()) if k[1] in ("ad", "af")]
+        wantn = ["d", "s", "l", "l", "l", "@ad", "@af"]
+        bad = [x for x in texts if not lex_ok(x[1], 1.0 if (x[0] == "l" and x is texts[3]) else v)]
+        if [x[0] for x in texts] != wantn or bad:
+            ctx.fail("a float value is not sent in the lexical form of its XSD type", meta, texts,
+                     "INF / -INF / NaN / a numeral reading back equal, for: " + ", ".join(wantn))
 
 
 def one(ctx, client, I, op, args, mode, meta, env, reqs, metas):
